@@ -72,7 +72,9 @@ TagPairs    == UNION { { Tx[t].tags[i] : i \in 1..Len(Tx[t].tags) } : t \in TxId
 TagNames    == { p[1] : p \in TagPairs }
 Dates       == { Tx[t].date : t \in TxIds }
 
-Content == [incl : SUBSET (0..N + 1), txs : Seq(TxIds), decl : SUBSET DeclIds, absent : BOOLEAN]
+\* rev: the include directives are written in descending instead of ascending order (the SET of targets is the same;
+\* which of two conflicting commodity formats is in force, and the order of the file list, follow the written order)
+Content == [incl : SUBSET (0..N + 1), txs : Seq(TxIds), decl : SUBSET DeclIds, absent : BOOLEAN, rev : BOOLEAN]
 
 (* ---- generic sums -------------------------------------------------------- *)
 SumSeq(s, F(_)) == FoldSeq(LAMBDA x, acc : F(x) + acc, 0, s)
@@ -124,15 +126,16 @@ VARIABLES c,      \* contents (also what is on disk)
 
 vars == <<c, mem, tpl, gl, h>>
 
-Pool == { [incl |-> i, txs |-> t, decl |-> d, absent |-> FALSE] : i \in InclMenu, t \in TxsMenu, d \in DeclMenu }
-NoFile == [incl |-> {}, txs |-> <<>>, decl |-> {}, absent |-> TRUE]
+Pool == UNION { { [incl |-> i, txs |-> t, decl |-> d, absent |-> FALSE, rev |-> r] : r \in (IF Cardinality(i) >= 2 THEN BOOLEAN ELSE {FALSE}) } :
+                 i \in InclMenu, t \in TxsMenu, d \in DeclMenu }
+NoFile == [incl |-> {}, txs |-> <<>>, decl |-> {}, absent |-> TRUE, rev |-> FALSE]
 
 PayeesOf(cc, f) == { Tx[cc[f].txs[i]].payee : i \in 1..Len(cc[f].txs) }
 
 (* rebuild of the template map: any order of adding the member files *)
 RebuildTpl(cc) == [p \in Payees |-> IF Offers(cc, p) = {} THEN 0 ELSE CHOOSE t \in Offers(cc, p) : TRUE]
 
-E0 == [incl |-> {}, txs |-> <<>>, decl |-> {}, absent |-> FALSE]
+E0 == [incl |-> {}, txs |-> <<>>, decl |-> {}, absent |-> FALSE, rev |-> FALSE]
 Shapes == { [f \in Files |-> IF f = Root THEN [E0 EXCEPT !.incl = Files \ {Root}] ELSE [E0 EXCEPT !.txs = <<1>>]],
             [f \in Files |-> IF f < N THEN [E0 EXCEPT !.incl = {f + 1}, !.txs = <<2>>] ELSE [E0 EXCEPT !.txs = <<1>>]],
             [f \in Files |-> E0] }
